@@ -165,6 +165,32 @@ theorem cons {a b : α} {l l' : List α} (h : R a b) (hl : PermR R l l') : PermR
   obtain ⟨m, hp, ha⟩ := hl
   exact ⟨a :: m, hp.cons a, .cons h ha⟩
 
+/-- a property of the elements of the left list can be carried inside the relation -/
+theorem strengthen {P : α → Prop} {l l' : List α} (h : PermR R l l') (hp : ∀ a ∈ l, P a) : PermR (fun a b => R a b ∧ P a) l l' := by
+  obtain ⟨m, hm, ha⟩ := h
+  refine ⟨m, hm, ?_⟩
+  have hpm : ∀ a ∈ m, P a := fun a ha' => hp a (hm.mem_iff.mpr ha')
+  clear hm
+  induction ha with
+  | nil => exact .nil
+  | cons r _ ih => exact .cons ⟨r, hpm _ List.mem_cons_self⟩ (ih (fun a ha' => hpm a (List.mem_cons_of_mem _ ha')))
+
+theorem any_eq (f : α → Bool) (h : ∀ a b, R a b → f a = f b) {l l' : List α} (hp : PermR R l l') : l.any f = l'.any f := by
+  obtain ⟨m, hp, ha⟩ := hp
+  rw [hp.any_eq]
+  clear hp
+  induction ha with
+  | nil => rfl
+  | cons r _ ih => simp only [List.any_cons, h _ _ r, ih]
+
+theorem all_eq (f : α → Bool) (h : ∀ a b, R a b → f a = f b) {l l' : List α} (hp : PermR R l l') : l.all f = l'.all f := by
+  obtain ⟨m, hp, ha⟩ := hp
+  rw [hp.all_eq]
+  clear hp
+  induction ha with
+  | nil => rfl
+  | cons r _ ih => simp only [List.all_cons, h _ _ r, ih]
+
 /-- **a sort makes the order canonical**: sorted by `key`, distinct keys, related by a key-preserving relation up to
 permutation ⇒ related element by element in the same order -/
 theorem sorted_all2 (key : α → Str) (hk : ∀ a b, R a b → key a = key b) {l l' : List α}
